@@ -53,6 +53,47 @@ SRC_SPECS = [
     dict(module=_TDIR + 'guillot.py', cls='Guillot2010', func='profile', lean='guillot_profile', dialect='arr',
          params={}, attrs=_GATTRS, returns='opt', raise_value='none',
          externals={'spe.expn': ('expn', 2), '**': ('rpow', 2)}),
+    # ---- dialect 'seq' (harness/translate_seq.py): arrays as lists of run-time length, Python ints, general slices, the
+    # shape tests numpy makes at run time as `Except.error "ValueError"`.
+    # taurex.util.movingaverage (cumsum trick); `n` is a Python int, `ret[n - 1:] / n` converts it with `toFloat`
+    dict(module='taurex/util/util.py', func='movingaverage', lean='movingaverage', dialect='seq',
+         params=dict(a='list', n='int'), raises=True),
+    # the WHOLE NPoint.profile: node lists, check_profile (the arr translation above), np.interp in log10 P (external
+    # `interp x xp fp`, mapped over the abscissae), int(...) window (`pyInt`), `%`, movingaverage, border, slice store.
+    # `np.all(Tnodes == Tnodes[0])` compares a Python LIST with a number: False for a Python float, element-wise for a
+    # numpy scalar — the Bool parameter `allEq` (both readings are covered by the tie theorems)
+    dict(module=_TDIR + 'npoint.py', cls='NPoint', func='profile', lean='npoint_profile', dialect='seq', params={},
+         attrs={'self._T_surface': ('T_surface', 's'), 'self._T_top': ('T_top', 's'),
+                'self._t_points': ('t_points', 'list'), 'self._p_points': ('p_points', 'list'),
+                'self._P_surface': ('P_surface', 'opt'), 'self._P_top': ('P_top', 'opt'),
+                'self.pressure_profile': ('pressure', 'list'), 'self._smooth_window': ('smooth_window', 's'),
+                'self.nlayers': ('nlayers', 'nat'), 'self._limit_slope': ('limit_slope', 's')},
+         raises=True, raise_value='(Except.error "InvalidTemperatureException")',
+         b_externals={'np.all(Tnodes == Tnodes[0])': 'allEq'},
+         vexternals={'np.interp': dict(lean='interp', args=['s*', 'list', 'list'], ret='s')}),
+    # TemperatureArray: __init__ and profile, once per calling pattern (p_points None / given; partial evaluation of the
+    # `is None` tests).  interp1d(x, y, bounds_error=False, fill_value=(lo, hi)) is an external that returns a function
+    # (the attribute `_func`), np.linspace an external that returns an array, np.interp as above.
+    dict(module=_TDIR + 'temparray.py', cls='TemperatureArray', func='__init__', lean='temparray_init_plain',
+         callname='TemperatureArray(plain)', dialect='seq', params=dict(tp_array='list', p_points='none', reverse='bool'),
+         state=['self._tp_profile']),
+    dict(module=_TDIR + 'temparray.py', cls='TemperatureArray', func='__init__', lean='temparray_init_pressure',
+         callname='TemperatureArray(pressure)', dialect='seq',
+         params=dict(tp_array='list', p_points='list', reverse='bool'),
+         state=['self._tp_profile', 'self._p_profile', 'self._func'],
+         vexternals={'interp1d(bounds_error,fill_value)': dict(
+             lean='interp1d', args=['list', 'list', 'bool', ('tuple', ('s', 's'))], ret=('fn', ('s',), 's'))}),
+    dict(module=_TDIR + 'temparray.py', cls='TemperatureArray', func='profile', lean='temparray_profile_plain',
+         callname='TemperatureArray.profile(plain)', dialect='seq', params={},
+         attrs={'self._tp_profile': ('tp_profile', 'list'), 'self._p_profile': ('p_profile', 'none'),
+                'self.nlayers': ('nlayers', 'nat')},
+         vexternals={'np.interp': dict(lean='interp', args=['s*', 'list', 'list'], ret='s'),
+                     'np.linspace': dict(lean='linspace', args=['s', 's', 'nat'], ret='list')}),
+    dict(module=_TDIR + 'temparray.py', cls='TemperatureArray', func='profile', lean='temparray_profile_pressure',
+         callname='TemperatureArray.profile(pressure)', dialect='seq', params={},
+         attrs={'self._tp_profile': ('tp_profile', 'list'), 'self._p_profile': ('p_profile', 'list'),
+                'self.nlayers': ('nlayers', 'nat'), 'self.pressure_profile': ('pressure', 'list'),
+                'self._func': ('func', ('fn', ('s',), 's'))}),
 ]
 
 RULE = ('kinds iso/npoint/rodgers/tarray/tfile/guillot by quota; layers 2-150 (not multiples of ten favoured); real '
@@ -79,6 +120,12 @@ ASSUMPTIONS = [
     'source tie (Props/C12Src.lean): T4 ** 0.25 = sqrt(sqrt(T4)); weights.dot(T) (BLAS, addition order unspecified) and '
     'np.sum(cov, axis=0) are read as left-to-right sums starting from 0; the carrier order is total (x == 0.0 of the '
     'code vs. not x<0 and not 0<x of the model differ only for NaN parameters)',
+    'source tie, dialect seq (movingaverage, NPoint.profile, TemperatureArray): np.interp(x, xp, fp) is evaluated abscissa '
+    'by abscissa; int(x) truncates toward zero and the window product nlayers*(window/100) is not negative; int(k/2) = '
+    'k//2 for k >= 0; np.cumsum accumulates from the left; the cumsum trick equals the window means exactly over the reals '
+    '(rounding on floats); np.all(Tnodes == Tnodes[0]) is a Bool parameter (False for a Python-float T_surface, '
+    'element-wise for a numpy scalar: the restated theorems cover both); interp1d(bounds_error=False, fill_value=(lo,hi)) '
+    '= stable sort by abscissa + np.interp + fill values (interp1dModel)',
 ]
 
 KINDS = ['npoint', 'npoint', 'npoint', 'rodgers', 'tarray', 'guillot', 'npoint', 'iso', 'tfile', 'guillot',
